@@ -1,6 +1,6 @@
 SPECIFICATION Spec
 CONSTANT M = 16
-CONSTANT L = 5
+CONSTANT L = 4
 CONSTANT MaxBlocks = 3
 CONSTANT Variant = "code"
 INVARIANT Inv
